@@ -8,6 +8,7 @@ var table = map[string]propSpec{
 	"C11": {Level: "exploration", Parts: []partSpec{{Name: "c11-complete", Bin: "p:c11"}, {Name: "c11-sound", Bin: "p:c11"}}},
 	"C15": {Level: "model_checking", Parts: []partSpec{{Name: "c15-cache", Bin: "inst"}, {Name: "c15-cache-stmt", Bin: "stmt"}, {Name: "c15-race", Bin: "race"}}},
 	"C16": {Level: "model_checking", Parts: []partSpec{{Name: "c16-replies", Bin: "inst"}, {Name: "cache-bfs", Bin: "p:cache"}}},
+	"C17": {Level: "model_checking", Parts: []partSpec{{Name: "c17-limits", Bin: "inst"}}},
 	"C20": {Level: "exploration", Parts: []partSpec{{Name: "c20-routing", Bin: "p:c20"}, {Name: "c20-roundtrip", Bin: "p:c20"}}},
 	"C03": {Level: "model_checking", Parts: []partSpec{{Name: "cache-bfs", Bin: "p:cache"}}},
 	"C04": {Level: "model_checking", Parts: []partSpec{{Name: "cache-bfs", Bin: "p:cache"}}},
